@@ -19,7 +19,8 @@ def registry():
 
     ms = []
     for mod, cls in (("corrupt", "Corrupt"), ("encrypt", "Encrypt"), ("history", "History"), ("sign", "Sign"),
-                     ("storage", "Storage"), ("cache", "Cache"), ("keys", "Keys"), ("pipeline", "Pipeline")):
+                     ("storage", "Storage"), ("cache", "Cache"), ("keys", "Keys"), ("pipeline", "Pipeline"),
+                     ("update", "Update"), ("mpi", "Mpi")):
         try:
             m = importlib.import_module(f"simhost.machines.{mod}")
         except ModuleNotFoundError as e:
